@@ -30,7 +30,7 @@ import registry  # noqa: E402
 
 REPO = os.environ.get("VERIF_REPO", "/repo")
 WORK = os.path.join(VERIF, ".work")
-LOGS = os.path.join(WORK, "logs")
+LOGS = os.path.join(WORK, "logs" + ("" if os.environ.get("VERIF_REPO", "/repo") == "/repo" else "-" + hashlib.sha1(os.environ["VERIF_REPO"].encode()).hexdigest()[:8]))
 KF_FILE = os.path.join(VERIF, "known_findings.txt")
 
 ENV = dict(os.environ)
@@ -61,9 +61,27 @@ def load_known_findings():
     return findings, fixed
 
 
+REPO_TAG = "" if REPO == "/repo" else "-" + hashlib.sha1(REPO.encode()).hexdigest()[:8]
+KANI_DIR = os.path.join(VERIF, "kani") if not REPO_TAG else os.path.join(WORK, "kani" + REPO_TAG)
+_prepared = set()
+
+
 def prepare_crate(crate):
-    """sync Cargo.lock from /repo (harness crates resolve the same dependency versions)"""
-    cdir = os.path.join(VERIF, "kani", crate)
+    """sync Cargo.lock from the repository (harness crates resolve the same dependency versions).
+    With VERIF_REPO=<other checkout> (used to try seeded changes in a scratch worktree without
+    touching /repo) the harness crates are copied to .work/ with their path dependencies
+    pointing at that checkout, and get their own target directories."""
+    if REPO_TAG and KANI_DIR not in _prepared:
+        _prepared.add(KANI_DIR)
+        shutil.rmtree(KANI_DIR, ignore_errors=True)
+        shutil.copytree(os.path.join(VERIF, "kani"), KANI_DIR, ignore=shutil.ignore_patterns("target", "Cargo.lock"))
+        for root, _, files in os.walk(KANI_DIR):
+            for f in files:
+                if f == "Cargo.toml":
+                    fp = os.path.join(root, f)
+                    t = open(fp).read().replace('"/repo/', '"' + REPO.rstrip("/") + "/")
+                    open(fp, "w").write(t)
+    cdir = os.path.join(KANI_DIR, crate)
     src = os.path.join(REPO, "Cargo.lock")
     dst = os.path.join(cdir, "Cargo.lock")
     if not os.path.exists(dst):
@@ -163,7 +181,7 @@ def resolve_recursion(h, kf_features, cdir):
     log = os.path.join(LOGS, h["name"] + ".codegen.log")
     cmd = kani_cmd(dict(h, _resolved_recursion=[], unwindset=[], cbmc_args=[]), kf_features) + ["--only-codegen"]
     rc, timed_out, _ = run_with_caps(cmd, cdir, log, 1200, 0)
-    base = os.path.join(WORK, "k-" + h["crate"])
+    base = os.path.join(WORK, "k-" + h["crate"] + REPO_TAG)
     cands = []
     for root, _, files in os.walk(base):
         for f in files:
@@ -182,12 +200,14 @@ def resolve_recursion(h, kf_features, cdir):
             if m.group("dem").startswith(prefix):
                 resolved.append(f"{m.group('mangled')}:{depth}")
     h["_resolved_recursion"] = sorted(set(resolved))
+    if len(resolved) > 300:
+        return False  # a prefix that matches this many functions is a registry mistake
     return bool(resolved)
 
 
 def kani_cmd(h, kf_features, playback=None):
     feats = list(h.get("features", [])) + kf_features
-    cmd = ["cargo", "kani", "--target-dir", os.path.join(WORK, "k-" + h["crate"]),
+    cmd = ["cargo", "kani", "--target-dir", os.path.join(WORK, "k-" + h["crate"] + REPO_TAG),
            "--harness", h.get("fq") or f"{h['module']}::proofs::{h['name']}", "--exact"]
     if feats:
         cmd += ["--features", ",".join(feats)]
@@ -295,9 +315,9 @@ def run_replay_file(h, rpath, kf_features):
     """copy kani/ to scratch, append the playback test to the harness module, run it"""
     src = open(rpath).read()
     test_name = re.search(r"fn (kani_concrete_playback_\w+)", src).group(1)
-    scratch = os.path.join(WORK, "replay-" + h["name"])
+    scratch = os.path.join(WORK, "replay-" + h["name"] + REPO_TAG)
     shutil.rmtree(scratch, ignore_errors=True)
-    shutil.copytree(os.path.join(VERIF, "kani"), scratch, ignore=shutil.ignore_patterns("target"))
+    shutil.copytree(KANI_DIR, scratch, ignore=shutil.ignore_patterns("target"))
     mod_file = os.path.join(scratch, h["crate"], "src", h["module"] + ".rs")
     body = open(mod_file).read()
     # the test must live in the module that defines the harness fn: by convention
@@ -313,7 +333,7 @@ def run_replay_file(h, rpath, kf_features):
     cmd += ["--", test_name]
     log = os.path.join(LOGS, h["name"] + ".replay.log")
     env_td = dict(ENV)
-    env_td["CARGO_TARGET_DIR"] = os.path.join(WORK, "k-replay-" + h["crate"])
+    env_td["CARGO_TARGET_DIR"] = os.path.join(WORK, "k-replay-" + h["crate"] + REPO_TAG)
     with open(log, "w") as lf:
         p = subprocess.run(cmd, cwd=os.path.join(scratch, h["crate"]), stdout=lf, stderr=subprocess.STDOUT,
                            env=env_td, timeout=1800)
